@@ -6,7 +6,7 @@ _GRAMMAR_NOTE = ('Bounded exploration. Trusted: the reference semantics in vlib/
                  'Hint depth <= 3 quick / 5 thorough, container sizes 0..8 (12 for reachability). NumPy and other third-party hints are not covered.')
 CHECKS = {
  'C01': {
-  'technique': 'property-based testing: conforming objects built by construction from a hint grammar, reference-semantics oracle, all draws x 7 entry points',
+  'technique': 'property-based testing: conforming objects built by construction from a hint grammar, reference-semantics oracle, all draws x 7 entry points + 8 signature shapes (keyword-only, positional-only, defaulted, *args, **kwargs next to unhinted parameters)',
   'text': 'Hypothesis draws a hint from the shared grammar and builds a member object by construction (re-validated by an independent full-depth reference '
           'semantics); is_bearable, die_if_unbearable, both TypeHint methods, a decorated parameter, a decorated return and an identity function must accept it '
           'for every sampler draw in 0..len-1 plus boundary and random 32-bit draws, under generated configurations (is_random, O1/Ologn/On, verbosity, colour, violation types).',
